@@ -20,10 +20,19 @@ Definition activation_ok (c : cfg) (was now : bool) (ready_at_gate : N) : bool :
 Definition withdrawal_ok (c : cfg) (was now : bool) (ready_at_gate : N) : bool :=
   negb was || now || (ready_at_gate <? min_eff c)%N.
 
-(* a worker over the error limit has a kill requested for it *)
+(* a worker that accumulated more than WorkerErrKill errors has a kill requested
+   for it: [w_delivered] counts the countable errors raised for the entry *)
 Definition over_limit (c : cfg) (errs : N) : bool := (c_errkill c <? errs)%N.
-Definition kill_ok (c : cfg) (i : winfo) : bool := negb (over_limit c (w_errs i)) || w_killreq i.
+Definition kill_ok (c : cfg) (i : winfo) : bool :=
+  negb (over_limit c (w_delivered i)) || w_killreq i.
 Definition all_kill_ok (c : cfg) (s : st) : bool := forallb (fun p => kill_ok c (snd p)) (s_workers s).
+
+(* the weaker clause that holds of the code as found: the errors ErrWorkerState
+   has COUNTED ([w_errs]) *)
+Definition kill_counted_ok (c : cfg) (i : winfo) : bool :=
+  negb (over_limit c (w_errs i)) || w_killreq i.
+Definition all_kill_counted_ok (c : cfg) (s : st) : bool :=
+  forallb (fun p => kill_counted_ok c (snd p)) (s_workers s).
 
 (* what is true of the code as found instead of bound_ok: every fork started
    below Max may still complete *)
